@@ -16,7 +16,7 @@ from . import nmfu_child, cbuild, engine, sched, oracles, inputs as inputs_mod, 
 HERE = os.path.dirname(os.path.abspath(__file__))
 
 TIER = {
-    "quick": {"corpus_sets": 1, "gen": 150, "n_inputs": 5, "maxlen": 24, "n_sched": 3, "replicas": 4, "c20_sources": 300},
+    "quick": {"corpus_sets": 1, "gen": 360, "n_inputs": 5, "maxlen": 24, "n_sched": 3, "replicas": 4, "c20_sources": 300},
     "thorough": {"corpus_sets": 4, "gen": 2500, "n_inputs": 10, "maxlen": 64, "n_sched": 6, "replicas": 6, "c20_sources": 2500},
 }
 
@@ -160,7 +160,7 @@ def c12_unit(unit, plan, root, uidx, workdir, tree):
     t0 = time.time()
     res = _new_res(unit["label"], unit["base_argv"])
     rng = sched.rng_for(root, "c12opts", uidx)
-    base_force = {"O": rng.choice((0, 1, 2, 3, 3)), "eof": unit.get("eof", rng.random() < 0.3), "strict": rng.random() < 0.3}
+    base_force = {"O": rng.choice((0, 1, 2, 2, 3, 3)), "eof": unit.get("eof", rng.random() < 0.3), "strict": rng.random() < 0.3}
     if "-fyield-support" in unit["need"] or "-fyield-support" in unit["base_argv"]:
         base_force["indirect"] = True
     sets = c12_option_sets(rng, T["replicas"], base_force)
@@ -232,9 +232,33 @@ def fresh_compile(job, hashseed, aslr_off, timeout=300):
         return {"verdict": "internal:bad-output", "error": p.stdout[-300:].decode("latin-1", "replace"), "c": None, "h": None, "meta": None}
 
 
+NAME_POOL = ["s0", "s1", "n0", "n1", "b0", "e0", "h0", "h1", "dst", "tok", "url", "n", "ok"]
+
+
+def failing_macro_program(rng):
+    """
+    A source that is rejected *in the middle of a macro expansion* (undefined hook / output / wrong
+    type inside the macro body), with macro parameters named like globals other programs use:
+    the kind of broken file a long-running build process may have seen earlier.
+    """
+    r = rng
+    pn = r.sample(NAME_POOL, 4)
+    kind = r.choice(("undef-hook", "undef-out", "type", "nested"))
+    bad = {"undef-hook": "nosuchhook();", "undef-out": "nosuchout = 3;", "type": "%s = true;" % pn[0], "nested": "inner(%s);" % pn[0]}[kind]
+    L = ["out str[6] zz;", "out int yy = 0;", "hook hh;"]
+    if kind == "nested":
+        L.append("macro inner(out q) { q += [65]; nosuchhook(); }")
+    L += ["macro mm(out %s, out %s, hook %s, match %s) {" % (pn[0], pn[1], pn[2], pn[3]),
+          "    %s += %s;" % (pn[0], pn[3]), "    %s = [%s + 1];" % (pn[1], pn[1]), "    %s();" % pn[2], "    " + bad, "}",
+          "parser {", '    "a";', '    mm(zz, yy, hh, /[a-f]+/);', '    ";";', "}"]
+    return "\n".join(L) + "\n"
+
+
 def make_history(rng, pool, target, tree):
     """A seeded history script of prior compilations and allocator/gc perturbations."""
     steps = []
+    if rng.random() < 0.35:
+        steps.append({"k": "compile", "source": failing_macro_program(rng), "argv": ["-O%d" % rng.randrange(4)]})
     for _ in range(rng.choice((1, 2, 3, 5))):
         k = rng.random()
         if k < 0.55:
